@@ -212,6 +212,7 @@ func replacements(g *goodGen, full bool) []replacement {
 		{"Type<Int>", jsonOf(cadence.NewTypeValue(cadence.IntType))},
 		{"Capability<&String>", jsonOf(cadence.NewCapability(3, a1, cadence.NewReferenceType(cadence.UnauthorizedAccess, cadence.StringType)))},
 		{"Path", jsonOf(cadence.MustNewPath(common.PathDomainPublic, "r"))},
+		{"Event", rawNode(g.w.eventJSON)},
 	}
 	if full {
 		out = append(out,
@@ -220,7 +221,6 @@ func replacements(g *goodGen, full bool) []replacement {
 			replacement{"Character", jsonOf(must(cadence.NewCharacter("x")))},
 			replacement{"Enum:C.En", jsonOf(byName("C.En"))},
 			comp(1),
-			replacement{"Event:D.Ev", rawNode(`{"type":"Event","value":{"id":"A.0000000000000001.D.Ev","fields":[{"name":"a","value":{"type":"Int","value":"1"}}]}}`)},
 			replacement{"Contract:C", rawNode(`{"type":"Contract","value":{"id":"A.0000000000000001.C","fields":[]}}`)},
 			replacement{"Range<Int>", jsonOf(cadence.NewInclusiveRange(cadence.NewInt(1), cadence.NewInt(2), cadence.NewInt(1)))},
 			replacement{"Array[Int]", jsonOf(cadence.NewArray([]cadence.Value{cadence.NewInt(1)}))},
